@@ -54,7 +54,16 @@ def skeleton(run, scr):
                 continue
             seen.add(fn)
             E = e2.Exec(funcs, mode='bv', inline=set())
-            res, obl = E.run(fn, [e2.Ref('self', '&mut ' + pat)])
+            E.cut_loops = True          # a hand-written zeroize() may loop over the vectors; the derived one is loop-free
+            try:
+                res, obl = E.run(fn, [e2.Ref('self', '&mut ' + pat)])
+            except (e2.Refuse, RecursionError, Exception) as ex:  # noqa: BLE001 - the skeleton is one of three deciders; the others still run
+                problems.append((ty, f'skeleton of {fn} not conclusive ({type(ex).__name__}: {str(ex)[:120]}); decided by the Kani object harnesses and the native drop test'))
+                res = []; E.calls = []
+                continue
+            loops = [1 for pc, r in res if isinstance(r, dict) and str(r.get('@stop', '')).startswith('loop:')] + [1 for pc, stp in E.path_states if isinstance(stp, dict) and str(stp.get('@stop', '')).startswith('loop:')]
+            if loops:
+                problems.append((ty, f'{fn} contains loops (hand-written erasure): which elements are reached is decided by the Kani object harnesses and the native drop test at the real sizes'))
             run.functions.append('MIR ' + fn)
             if len(res) != 1:
                 run.inconclusive.append(f'C16 skeleton: {fn} has {len(res)} paths')
